@@ -39,7 +39,7 @@ def step (st : St) (l : Line) : St × Verdict :=
     if l.impl == [want] then (st, .ok)
     else if l.impl == ["STARTERR"] || l.impl == ["NOLISTEN"] then (st, .bad s!"viaserver: {l.impl}")
     else (st, .specFail "C12.sender-address" s!"behind a redirector = {redir}, listener edited {edits} time(s): a new agent that sent X-Forwarded-For: 203.0.113.8 from 127.0.0.1 is recorded with {l.impl}, expected {want}")
-  | "req", [peer, method, uri, hs] =>
+  | "req", peer :: method :: uri :: hs :: bodyKind =>
     match st.cfg, hexStr method, hexStr uri, hexPairs hs, kv "class" l.impl, kv "reached" l.impl, kv "extip" l.impl, kv "headers" l.impl with
     | some cfg, some m, some u, some hdrs, some cls, some reached, some ext, some rh =>
       let req : HttpReq := ⟨m, u, hdrs, if peer == "6" then "::1".toList else "127.0.0.1".toList⟩
@@ -48,6 +48,20 @@ def step (st : St) (l : Line) : St × Verdict :=
         (st, .specFail "C12.admission" s!"a {showS m} {showS u} request that does not match the listener profile reached the agent protocol")
       else if reached == "0" ∧ cls ≠ "decoy" then
         (st, .specFail "C12.decoy" s!"a rejected {showS m} request was answered with {cls} ({(kv "status" l.impl).getD "?"}), not the decoy 404")
+      else if want ∧ !bodyKind.isEmpty then
+        -- admitted by the profile, but the body is nothing the agent protocol can use: the decoy, and like every answer
+        -- to an admitted request it carries the configured response headers
+        match hexPairs rh with
+        | some got =>
+          -- the decoy page has a face of its own (Server, Content-Type, X-Havoc as fake404 sets them): a configured header of
+          -- one of these names is not demanded on it; every other configured response header is
+          let decoyOwn (n : Str) : Bool := ["server", "content-type", "x-havoc"].any fun d => eqFold n d.toList
+          let missing := (responseHeaders cfg).filter fun (n, v) => !decoyOwn n && !(got.any fun (gn, gv) => eqFold gn n && gv == v)
+          if reached == "1" then (st, .specFail "C12.admission" s!"a request with an unusable body ({bodyKind}) created a session")
+          else if !missing.isEmpty then
+            (st, .specFail "C12.response-headers" s!"the answer to an admitted request with an unusable body ({bodyKind}) lacks configured response header(s) {missing.map fun (n, v) => showS n ++ ": " ++ showS v}")
+          else (st, .ok)
+        | none => (st, .bad "headers hex")
       else if reached == "1" then
         match hexStr ext, hexPairs rh with
         | some e, some got =>
